@@ -1,58 +1,578 @@
-"""C19 - swarm (prototype)."""
+"""C19 - swarm actions run once per Crazyflie with the right arguments and error report.
+
+What is decided here (functions of cflib/crazyflie/swarm.py, plus SyncCrazyflie for one integrated contract):
+
+  init.*                 Swarm.__init__: one member per URI, built by factory.construct(uri), in the order of the URIs
+  process_args_dict.*    Swarm._process_args_dict: [scf] followed by the member's own entry of the argument dictionary
+  reporter               Swarm.Reporter: a fresh reporter holds no error; errors are kept in report order; two reporters
+                         never share state
+  thread_function_wrapper.*  the per-member thread body calls func(*args[2:]) exactly once; an Exception is appended to
+                         the reporter and does not escape
+  sequential.*           one action per member, one at a time, in the order of the URIs, with the member's arguments
+  parallel_safe.*        over ALL schedules of the member threads and ALL subsets of failing actions: every action runs
+                         exactly once with its member's connection and arguments, all of them have finished when the call
+                         returns, it raises iff at least one action raised, and the raised Exception chains one of the
+                         errors raised by THIS call (history contracts `parallel_safe.twice.*`: not an error of an earlier
+                         call or of another swarm)
+  parallel.*             the same, and never raises
+  open_links.*           every link opened once; failure of any subset => every link closed once, after every open attempt
+                         has finished, the swarm is not open and the failure is raised (chained); success => swarm open,
+                         nothing closed; `open_links.twice`: a second open raises and touches no link
+  open_links.sync.*      the same with REAL SyncCrazyflie members over stub Crazyflie objects: after a failed open no
+                         member link is left open
+  close_links.* / context-manager   every link closed once in order; `with Swarm(..)` opens and closes
+
+Thread model (assumption of the design section: "Thread(target=f,args=a).start(); join() runs f(*a) exactly once and
+completes before join returns; list.append is atomic"): c.model_threads replaces threading.Thread in both back ends by a
+model whose target runs atomically at a scheduler-chosen point between start() and the return of join(); the symbolic
+back end explores every such schedule (every order of the thread bodies, every placement relative to the main thread's
+start()/join() calls), the native back end replays the chosen schedule deterministically.
+
+NOT covered (and why):
+  * pre-emption INSIDE a thread body (two members interleaving statement by statement): the bodies only share the
+    reporter (flag store + list.append, both atomic under the GIL - assumption), so body-level atomicity loses no
+    outcome, but this is an argument, not a proof; real OS threads / timing are never run;
+  * swarm sizes above 3 and argument lists longer than 2 (bounded, see `bounded=` of each contract);
+  * URIs are three concrete distinct strings (the code only hashes/compares them); duplicate URIs only for __init__;
+  * argument dictionaries that lack the entry of a member (KeyError in the calling thread - shown for
+    _process_args_dict only) and actions raising a BaseException that is not an Exception;
+  * sequential() with a failing action: the property gives no error rule; the code behaviour (abort at the first
+    failing member) is recorded in `sequential.failing-action.n3`;
+  * get_estimated_positions / reset_estimators (not part of the property; need SyncLogger).
+"""
 from pyvc.api import contract
 
 SWM = 'cflib.crazyflie.swarm'
+SCF = 'cflib.crazyflie.syncCrazyflie'
 URIS = ['radio://0/80/2M/E7E7E7E701', 'radio://0/80/2M/E7E7E7E702', 'radio://0/80/2M/E7E7E7E703']
+ARGLENS = [2, 0, 1]          # length of the argument-dictionary entry of member i
+
+P_ONCE = ('a swarm-wide action runs exactly once per Crazyflie, receiving that Crazyflie\'s connection as first argument '
+          'followed by its own entry of the argument dictionary')
+P_SEQ = P_ONCE + '; sequential actions run one at a time in the iteration order of the given URIs'
+P_PAR = P_ONCE + '; parallel_safe returns only after every action has finished and raises iff at least one action raised, chaining one of the raised errors'
+P_OPEN = 'if opening any link fails, every link is closed again and the failure is raised; a swarm cannot be opened twice'
+B_N = 'swarm size %d (sizes 0..3 enumerated); argument-dictionary entries of length 2, 0, 1; three fixed distinct URIs'
 
 
 def decide(I, v):
-    return bool(v) if I is None else I.decide(v)
+    """branch on a contract input inside a stub body: forks symbolically (I = interpreter), concrete natively (I = None)"""
+    return bool(v) if (I is None or isinstance(v, bool)) else I.decide(v)
 
 
-def make_swarm(c, n, nargs=1):
-    uris = URIS[:n]
-    scfs = [c.ext('scf%d' % i) for i in range(n)]
+def make_factory(c, n, uris=None, members=None):
+    """a stub factory that hands out the member stubs scf0..scf<n-1> in construction order"""
+    uris = URIS[:n] if uris is None else uris
+    scfs = members if members is not None else [c.ext('scf%d' % i) for i in range(len(uris))]
     it = iter(scfs)
     factory = c.ext('factory', returns={'construct': lambda *_a: next(it)})
+    c.let('uris', list(uris))
+    return factory, uris, scfs
+
+
+def new_swarm(c, n, members=None):
+    """a Swarm built by its REAL constructor"""
+    factory, uris, scfs = make_factory(c, n, members=members)
     swarm = c.new(SWM + ':Swarm', c.list(uris), factory)
     c.let('swarm', swarm)
-    c.let('uris', uris)
+    c.reset_trace()
     return swarm, uris, scfs
 
 
-def failing_action(c, scfs, tag='act'):
-    fails = [c.bool('fail%d' % i) for i in range(len(scfs))]
+def args_dict(c, n, uris, prefix='a'):
+    """argument dictionary with one list of symbolic ints per member; registers a<i> in the spec namespace"""
+    lists = [c.ints('%s%d' % (prefix, i), ARGLENS[i]) for i in range(n)]
+    return c.dict([(uris[i], lists[i]) for i in range(n)]), lists
+
+
+def expected_args(i, prefix='a'):
+    """spec text of the tuple the action of member i must receive"""
+    return '(scf%d, %s)' % (i, ''.join('%s%d[%d], ' % (prefix, i, j) for j in range(ARGLENS[i])))
+
+
+def action_stub(c, scfs, name='action', tag='act', failing=True, fails=None):
+    """the swarm-wide action: a recording stub; member i's invocation raises RuntimeError('<tag>:<i>') iff <tag>_fail<i>"""
+    if fails is None:
+        fails = [c.bool('%s_fail%d' % (tag, i)) for i in range(len(scfs))] if failing else []
 
     def body(I, args, kwargs):
+        if not failing:
+            return None
         i = [k for k, s in enumerate(scfs) if s is args[0]][0]
         if decide(I, fails[i]):
             c.raiser('RuntimeError', '%s:%d' % (tag, i))()
-    return c.ext('action', returns={'()': body}), fails
+    return c.ext(name, returns={'()': body})
 
 
-def _parallel_safe(n):
-    @contract('C19', 'parallel_safe.n%d' % n, [SWM + ':Swarm.parallel_safe'], clause='x', bounded='n')
-    def k(c):
-        c.model_threads(SWM)
-        swarm, uris, scfs = make_swarm(c, n)
-        args = [c.ints('a%d' % i, 2) for i in range(n)]
-        ad = c.dict([(uris[i], args[i]) for i in range(n)])
-        action, fails = failing_action(c, scfs)
-        c.reset_trace()
-        c.call((swarm, 'parallel_safe'), action, ad)
-        c.ensure('once-per-member', 'len(sent("action")) == %d' % n)
+def any_fail(n, tag='act'):
+    return '(%s)' % (' or '.join('%s_fail%d' % (tag, i) for i in range(n)) or 'False')
+
+
+def cause_is_raised_here(n, tag='act', cls='RuntimeError'):
+    """the chained error is the error raised by a member that failed in this call"""
+    return '(%s)' % (' or '.join("(%s_fail%d and isinstance(exc.__cause__, %s) and exc.__cause__.args == ('%s:%d',))"
+                                 % (tag, i, cls, tag, i) for i in range(n)) or 'False')
+
+
+def ensure_each_action_once(c, n, name='action', prefix='a', with_args=True):
+    c.let('ACT', name)
+    c.ensure('exactly-one-action-per-member', 'len(sent(ACT)) == %d' % n)
+    for i in range(n):
+        want = expected_args(i, prefix) if with_args else '(scf%d,)' % i
+        c.ensure('member-%d-action-once-with-its-connection-and-arguments' % i,
+                 '[(e[1], e[2]) for e in sent(ACT) if len(e[1]) > 0 and e[1][0] is scf%d] == [(%s, {})]' % (i, want))
+
+
+def ensure_threads(c, n, name='action', prefix='a', with_args=True):
+    """one thread per member, started once, run to completion and joined before the call returned"""
+    c.ensure('one-thread-per-member', 'len(sent("Thread")) == %d' % n)
+    if len([e for e in c.get('trace') if e[0] == 'Thread']) == n:
         for i in range(n):
-            c.ensure('member-%d-once-with-its-args' % i,
-                     'len([e for e in sent("action") if e[1][0] is scf%d]) == 1 and '
-                     '[e for e in sent("action") if e[1][0] is scf%d][0][1][1:] == (a%d[0], a%d[1])' % (i, i, i, i))
-        c.ensure('raises-iff-some-action-raised', 'iff(raised is not None, %s)' % (' or '.join('fail%d' % i for i in range(n)) or 'False'))
-        if c.get('raised') is not None:
-            c.ensure('raises-Exception', "raised == 'Exception'")
-            c.ensure('cause-t', "isinstance(exc.__cause__, RuntimeError)")
-            c.ensure('cause-n', "exc.__cause__ is not None")
-            c.ensure('cause-a', "exc.__cause__.args[0] in (%s)" % ''.join("'act:%d', " % i for i in range(n)))
+            c.snapshot('th', 'sent("Thread")[%d][2]' % i)
+            want = ('[%s]' % expected_args(i, prefix)[1:-1]) if with_args else '[scf%d]' % i
+            c.ensure('thread-%d-target-and-args' % i,
+                     "th['target'] == swarm._thread_function_wrapper and th['args'][0] is %s and "
+                     "typename(th['args'][1]) == 'Reporter' and th['args'][1] is sent('Thread')[0][2]['args'][1] and "
+                     "list(th['args'][2:]) == %s" % (name, want))
+    for i in range(n):
+        c.ensure('thread-%d-started-once-ran-once-finished-and-joined-before-return' % i,
+                 ' and '.join("calls('thread!%d.').count('thread!%d.%s') %s" % (i, i, ev, cnt)
+                              for ev, cnt in (('start', '== 1'), ('run', '== 1'), ('end', '== 1'), ('join', '>= 1'), ('uncaught', '== 0'))))
+
+
+# ------------------------------------------------------------------------- __init__
+
+def _init(n):
+    @contract('C19', 'init.n%d' % n, [SWM + ':Swarm.__init__'],
+              clause='the swarm has exactly one member per given URI, constructed by the factory from that URI, kept in the '
+                     'iteration order of the given URIs, and is not open', bounded=B_N % n)
+    def k(c):
+        factory, uris, scfs = make_factory(c, n)
+        c.call(SWM + ':Swarm', c.list(uris), factory)
+        c.ensure('no-exception', 'raised is None')
+        c.ensure('one-construct-per-uri-in-order', '[e[1] for e in sent("factory.construct")] == [(u,) for u in uris] and len(trace) == %d' % n)
+        c.ensure('members-keyed-by-uri-in-order', 'list(result._cfs.keys()) == uris')
+        for i in range(n):
+            c.ensure('member-%d-is-the-constructed-connection' % i, 'list(result._cfs.values())[%d] is scf%d' % (i, i))
+        c.ensure('not-open', 'result._is_open is False')
     return k
 
 
 for _n in (0, 1, 2, 3):
-    _parallel_safe(_n)
+    _init(_n)
+
+
+@contract('C19', 'init.duplicate-uri', [SWM + ':Swarm.__init__'],
+          clause='a URI given twice yields ONE member (no action can run twice on one Crazyflie); order = first occurrence')
+def init_dup(c):
+    factory, uris, scfs = make_factory(c, 3, uris=[URIS[0], URIS[1], URIS[0]])
+    c.call(SWM + ':Swarm', c.list(uris), factory)
+    c.ensure('no-exception', 'raised is None')
+    c.ensure('two-members-in-first-occurrence-order', 'list(result._cfs.keys()) == [uris[0], uris[1]]')
+    c.ensure('member-objects', 'list(result._cfs.values())[0] is scf2 and list(result._cfs.values())[1] is scf1')
+
+
+# ------------------------------------------------------------------------- _process_args_dict
+
+def _process(shape):
+    @contract('C19', 'process_args_dict.' + shape, [SWM + ':Swarm._process_args_dict'],
+              clause='the argument list of a member is its connection followed by its own entry of the argument dictionary '
+                     '(no dictionary / empty dictionary: the connection only); the dictionary and its entries are not modified',
+              bounded='two-member swarm, entries of length 2 and 0; member index enumerated')
+    def k(c):
+        swarm, uris, scfs = new_swarm(c, 2)
+        j = c.choice('member', [0, 1])
+        c.let('scf', scfs[j])
+        if shape == 'none':
+            ad = None
+        elif shape == 'empty':
+            ad = c.dict([])
+        else:
+            ad, lists = args_dict(c, 2, uris)
+            c.snapshot('before0', 'list(a0)')
+            c.snapshot('before1', 'list(a1)')
+        c.let('ad', ad)
+        c.call((swarm, '_process_args_dict'), scfs[j], uris[j], ad)
+        c.ensure('no-exception', 'raised is None')
+        c.ensure('is-list-starting-with-the-connection', "typename(result) == 'list' and len(result) >= 1 and result[0] is scf")
+        if shape == 'dict':
+            c.ensure('followed-by-own-entry', 'result[1:] == before%d' % j)
+            c.ensure('fresh-list', 'result is not a0 and result is not a1')
+            c.ensure('dictionary-unchanged', 'list(ad.keys()) == uris and ad[uris[0]] is a0 and ad[uris[1]] is a1 and '
+                                             'list(a0) == before0 and list(a1) == before1')
+        else:
+            c.ensure('connection-only', 'len(result) == 1')
+        c.ensure('no-external-effect', 'len(trace) == 0')
+    return k
+
+
+for _s in ('none', 'empty', 'dict'):
+    _process(_s)
+
+
+@contract('C19', 'process_args_dict.missing-entry', [SWM + ':Swarm._process_args_dict'],
+          clause='(code behaviour, outside the property) a dictionary without the entry of the member raises KeyError')
+def process_missing(c):
+    swarm, uris, scfs = new_swarm(c, 2)
+    a0 = c.ints('a0', 2)
+    c.call((swarm, '_process_args_dict'), scfs[1], uris[1], c.dict([(uris[0], a0)]))
+    c.ensure('KeyError', "raised == 'KeyError'")
+
+
+# ------------------------------------------------------------------------- Reporter
+
+def an_error(c, name, msg):
+    """an exception object of the world we run in, registered as `name`"""
+    thrower = c.ext('thrower_' + name, returns={'()': c.raiser('ValueError', msg)})
+    c.call(thrower)
+    return c.let(name, c.get('exc'))
+
+
+@contract('C19', 'reporter', [SWM + ':Swarm.Reporter.__init__', SWM + ':Swarm.Reporter.errors', SWM + ':Swarm.Reporter.report_error',
+                              SWM + ':Swarm.Reporter.is_error_reported'],
+          clause='the error report of one parallel call: empty when created, holds exactly the reported errors in report order, '
+                 'and is private to that call (a reporter created later starts empty and neither sees nor changes an earlier one)')
+def reporter(c):
+    e1, e2, e3 = an_error(c, 'e1', 'one'), an_error(c, 'e2', 'two'), an_error(c, 'e3', 'three')
+    c.call(SWM + ':Swarm.Reporter')
+    r1 = c.let('r1', c.get('result'))
+    c.ensure('created', 'raised is None and typename(r1) == "Reporter"')
+    c.ensure('fresh-reporter-has-no-error', 'r1.is_error_reported() is False and list(r1.errors) == []')
+    c.call((r1, 'report_error'), e1)
+    c.ensure('report-1', 'raised is None and r1.is_error_reported() is True and len(r1.errors) == 1 and r1.errors[0] is e1')
+    c.call((r1, 'report_error'), e2)
+    c.ensure('report-2-keeps-order', 'raised is None and r1.is_error_reported() is True and len(r1.errors) == 2 and '
+                                     'r1.errors[0] is e1 and r1.errors[1] is e2')
+    c.call(SWM + ':Swarm.Reporter')
+    r2 = c.let('r2', c.get('result'))
+    c.ensure('later-reporter-starts-empty', 'r2.is_error_reported() is False and list(r2.errors) == []')
+    c.ensure('reporters-do-not-share-the-list', 'r2.errors is not r1.errors')
+    c.call((r2, 'report_error'), e3)
+    c.ensure('report-to-second', 'r2.is_error_reported() is True and [e for e in r2.errors if e is not e3] == [] and len(r2.errors) == 1')
+    c.ensure('first-unchanged', '[e for e in r1.errors if e is e3] == [] and len(r1.errors) == 2')
+    c.call((r1, 'is_error_reported'))
+    c.ensure('query-is-pure', 'result is True and len(r1.errors) == 2')
+
+
+# ------------------------------------------------------------------------- _thread_function_wrapper
+
+def _wrapper(nargs):
+    @contract('C19', 'thread_function_wrapper.args%d' % nargs, [SWM + ':Swarm._thread_function_wrapper', SWM + ':Swarm.Reporter.report_error'],
+              clause='the body of a member thread calls the action exactly once with the connection and the member\'s arguments; '
+                     'an Exception raised by the action is appended to the reporter of this call and does not escape the thread',
+              bounded='%d member arguments (0..2 enumerated)' % nargs)
+    def k(c):
+        swarm, uris, scfs = new_swarm(c, 1)
+        e0 = an_error(c, 'e0', 'earlier')
+        with_earlier = c.choice('earlier_error', [False, True])
+        fail = c.choice('action_fails', [False, True])
+        rep = c.new(SWM + ':Swarm.Reporter')
+        c.let('rep', rep)
+        if with_earlier:
+            c.call((rep, 'report_error'), e0)
+        c.let('base', 1 if with_earlier else 0)
+        c.let('fail', fail)
+        action = action_stub(c, scfs, fails=[fail])
+        xs = [c.int('x%d' % i) for i in range(nargs)]
+        c.reset_trace()
+        c.call((swarm, '_thread_function_wrapper'), action, rep, scfs[0], *xs)
+        c.ensure('nothing-escapes', 'raised is None and result is None')
+        c.ensure('action-called-exactly-once-with-connection-and-arguments',
+                 'len(trace) == 1 and trace[0][0] == "action" and trace[0][1] == (scf0, %s) and trace[0][2] == {}'
+                 % ''.join('x%d, ' % i for i in range(nargs)))
+        c.ensure('reported-iff-raised', 'len(rep.errors) == base + (1 if fail else 0)')
+        c.ensure('flag', 'rep.is_error_reported() is (fail or base == 1)')
+        if with_earlier:
+            c.ensure('earlier-error-kept-first', 'rep.errors[0] is e0')
+        c.ensure('the-raised-error-is-appended',
+                 "[(isinstance(e, RuntimeError), e.args) for e in rep.errors[base:]] == ([(True, ('act:0',))] if fail else [])")
+    return k
+
+
+for _k in (0, 1, 2):
+    _wrapper(_k)
+
+
+# ------------------------------------------------------------------------- sequential
+
+def _sequential(n, with_args):
+    @contract('C19', 'sequential.%sn%d' % ('' if with_args else 'noargs.', n), [SWM + ':Swarm.sequential', SWM + ':Swarm._process_args_dict'],
+              clause=P_SEQ, bounded=B_N % n)
+    def k(c):
+        swarm, uris, scfs = new_swarm(c, n)
+        ad = args_dict(c, n, uris)[0] if with_args else None
+        action = action_stub(c, scfs, failing=False)
+        c.call((swarm, 'sequential'), action, ad)
+        c.ensure('no-exception', 'raised is None and result is None')
+        want = '[%s]' % ', '.join(expected_args(i) if with_args else '(scf%d,)' % i for i in range(n))
+        c.ensure('one-action-per-member-in-uri-order-with-its-arguments', '[e[1] for e in sent("action")] == ' + want)
+        c.ensure('no-keyword-arguments', 'all(e[2] == {} for e in sent("action"))')
+        c.ensure('one-at-a-time-nothing-else-happens', 'len(trace) == %d and len(sent("Thread")) == 0' % n)
+    return k
+
+
+for _n in (0, 1, 2, 3):
+    _sequential(_n, True)
+_sequential(2, False)
+
+
+@contract('C19', 'sequential.failing-action.n3', [SWM + ':Swarm.sequential'],
+          clause='(code behaviour; the property states no error rule for sequential) an exception of an action propagates to the '
+                 'caller unchanged; members before it ran once in order, members after it do not run',
+          bounded='swarm size 3')
+def sequential_failing(c):
+    swarm, uris, scfs = new_swarm(c, 3)
+    ad = args_dict(c, 3, uris)[0]
+    action = action_stub(c, scfs)
+    c.call((swarm, 'sequential'), action, ad)
+    k = len(c.get('trace'))
+    c.ensure('a-prefix-in-order-each-at-most-once', '[e[1] for e in trace] == [%s]' % ', '.join(expected_args(i) for i in range(min(k, 3))))
+    c.ensure('earlier-actions-did-not-fail', 'not %s' % any_fail(max(k - 1, 0)))
+    if c.get('raised') is not None:
+        c.ensure('the-actions-own-exception', "raised == 'RuntimeError' and exc.args == ('act:%d',) and act_fail%d" % (k - 1, k - 1))
+    else:
+        c.ensure('all-ran', 'len(trace) == 3 and not %s' % any_fail(3))
+
+
+# ------------------------------------------------------------------------- parallel_safe / parallel
+
+def _parallel(which, n, with_args=True):
+    safe = which == 'parallel_safe'
+
+    @contract('C19', '%s.%sn%d' % (which, '' if with_args else 'noargs.', n),
+              [SWM + ':Swarm.' + which, SWM + ':Swarm._thread_function_wrapper', SWM + ':Swarm._process_args_dict',
+               SWM + ':Swarm.Reporter.report_error', SWM + ':Swarm.Reporter.is_error_reported'] + ([] if safe else [SWM + ':Swarm.parallel_safe']),
+              clause=(P_PAR if safe else P_ONCE + '; parallel returns only after every action has finished and never raises') +
+              ' - for every subset of failing members and every schedule of the member threads',
+              bounded=B_N % n)
+    def k(c):
+        c.model_threads(SWM)
+        swarm, uris, scfs = new_swarm(c, n)
+        ad = args_dict(c, n, uris)[0] if with_args else None
+        action = action_stub(c, scfs)
+        c.call((swarm, which), action, ad)
+        ensure_each_action_once(c, n, with_args=with_args)
+        ensure_threads(c, n, with_args=with_args)
+        c.ensure('every-action-finished-before-return', 'len(calls("action")) == %d and calls().count("action") == len([x for x in calls() if x.endswith(".end")])' % n)
+        if safe:
+            c.ensure('raises-iff-some-action-raised', 'iff(raised is not None, %s)' % any_fail(n))
+            if c.get('raised') is not None:
+                c.ensure('raises-Exception', "raised == 'Exception'")
+                c.ensure('chains-one-of-the-errors-raised-by-this-call', cause_is_raised_here(n))
+            else:
+                c.ensure('returns-None', 'result is None')
+        else:
+            c.ensure('never-raises', 'raised is None and result is None')
+    return k
+
+
+for _n in (0, 1, 2, 3):
+    _parallel('parallel_safe', _n)
+    _parallel('parallel', _n)
+_parallel('parallel_safe', 2, with_args=False)
+
+
+def _twice(n, other_swarm):
+    @contract('C19', 'parallel_safe.twice.%sn%d' % ('other-swarm.' if other_swarm else '', n),
+              [SWM + ':Swarm.parallel_safe', SWM + ':Swarm.Reporter.__init__', SWM + ':Swarm.Reporter.errors', SWM + ':Swarm.Reporter.report_error'],
+              clause='history: a parallel call that follows an earlier (possibly failing) parallel call %s raises iff one of ITS actions '
+                     'raised and chains one of the errors raised by ITS actions, not a stale one' % ('on another swarm' if other_swarm else 'on the same swarm'),
+              bounded='swarm size %d; two calls' % n)
+    def k(c):
+        c.model_threads(SWM)
+        swarm, uris, scfs = new_swarm(c, n)
+        first, firstmembers = swarm, scfs
+        if other_swarm:
+            scfx = c.ext('scfX')
+            c.call(SWM + ':Swarm', c.list([URIS[2]]), c.ext('factory1', returns={'construct': lambda *_a: scfx}))
+            first, firstmembers = c.get('result'), [scfx]
+            c.reset_trace()
+        one = action_stub(c, firstmembers, name='action1', tag='c1')
+        c.call((first, 'parallel_safe'), one)
+        c.ensure('first-call-raises-iff-its-action-raised', 'iff(raised is not None, %s)' % any_fail(len(firstmembers), 'c1'))
+        c.reset_trace()
+        ad = args_dict(c, n, uris)[0]
+        two = action_stub(c, scfs, name='action2', tag='c2')
+        c.call((swarm, 'parallel_safe'), two, ad)
+        ensure_each_action_once(c, n, name='action2')
+        c.ensure('first-action-not-run-again', 'len(sent("action1")) == 0')
+        c.ensure('raises-iff-one-of-its-own-actions-raised', 'iff(raised is not None, %s)' % any_fail(n, 'c2'))
+        if c.get('raised') is not None:
+            c.ensure('raises-Exception', "raised == 'Exception'")
+            c.ensure('chains-an-error-of-this-call-not-a-stale-one', cause_is_raised_here(n, 'c2'))
+    return k
+
+
+_twice(1, False)
+_twice(2, False)
+_twice(2, True)
+
+
+# ------------------------------------------------------------------------- open_links / close_links
+
+def link_members(c, n):
+    """member stubs whose open_link raises Exception('open:<i>') iff open_fail<i>"""
+    fails = [c.bool('open_fail%d' % i) for i in range(n)]
+
+    def opener(i):
+        def body(I, args, kwargs):
+            if decide(I, fails[i]):
+                c.raiser('Exception', 'open:%d' % i)()
+        return body
+    return [c.ext('scf%d' % i, returns={'open_link': opener(i)}) for i in range(n)]
+
+
+CLOSE_AFTER_OPENS = ('max([i for i, x in enumerate(calls()) if x.endswith(".open_link") or x.endswith(".end")] + [-1]) < '
+                     'min([i for i, x in enumerate(calls()) if x.endswith(".close_link")] + [10 ** 6])')
+
+
+def ensure_open_outcome(c, n):
+    for i in range(n):
+        c.ensure('link-%d-open-attempted-exactly-once' % i, '[e[1:] for e in sent("scf%d.open_link")] == [((), {})]' % i)
+    c.ensure('raises-iff-some-link-failed-to-open', 'iff(raised is not None, %s)' % any_fail(n, 'open'))
+    if c.get('raised') is None:
+        c.ensure('success-swarm-is-open', 'swarm._is_open is True and result is None')
+        c.ensure('success-nothing-closed', 'len(calls("scf")) == %d' % n)
+    else:
+        c.ensure('failure-is-raised', "raised == 'Exception'")
+        c.ensure('failure-chains-one-of-the-open-errors', cause_is_raised_here(n, 'open', 'Exception'))
+        for i in range(n):
+            c.ensure('failure-link-%d-closed-exactly-once' % i, '[e[1:] for e in sent("scf%d.close_link")] == [((), {})]' % i)
+        c.ensure('failure-links-closed-only-after-every-open-attempt-finished', CLOSE_AFTER_OPENS)
+        c.ensure('failure-swarm-is-not-open', 'swarm._is_open is False')
+        c.ensure('nothing-else-done-to-the-links', 'len(calls("scf")) == %d' % (2 * n))
+
+
+def _open_links(n):
+    @contract('C19', 'open_links.n%d' % n, [SWM + ':Swarm.open_links', SWM + ':Swarm.close_links', SWM + ':Swarm.parallel_safe',
+                                             SWM + ':Swarm._thread_function_wrapper'],
+              clause=P_OPEN + ' - for every subset of links that fail to open and every schedule of the opening threads',
+              bounded='swarm size %d (sizes 0..3 enumerated)' % n)
+    def k(c):
+        c.model_threads(SWM)
+        swarm, uris, scfs = new_swarm(c, n, members=link_members(c, n))
+        c.call((swarm, 'open_links'))
+        ensure_open_outcome(c, n)
+    return k
+
+
+for _n in (0, 1, 2, 3):
+    _open_links(_n)
+
+
+@contract('C19', 'open_links.twice', [SWM + ':Swarm.open_links', SWM + ':Swarm.close_links'],
+          clause='a swarm cannot be opened twice: open_links on an open swarm raises, touches no link and leaves the swarm open; '
+                 '(code behaviour) after close_links it can be opened again',
+          bounded='swarm size 2')
+def open_twice(c):
+    c.model_threads(SWM)
+    swarm, uris, scfs = new_swarm(c, 2)
+    c.call((swarm, 'open_links'))
+    c.ensure('first-open-succeeds', 'raised is None and swarm._is_open is True')
+    c.reset_trace()
+    c.call((swarm, 'open_links'))
+    c.ensure('second-open-raises', "raised == 'Exception'")
+    c.ensure('second-open-touches-nothing', 'len(trace) == 0')
+    c.ensure('still-open', 'swarm._is_open is True')
+    c.call((swarm, 'close_links'))
+    c.ensure('closed', 'raised is None and swarm._is_open is False')
+    c.reset_trace()
+    c.call((swarm, 'open_links'))
+    c.ensure('reopen-after-close', 'raised is None and swarm._is_open is True and len(sent("scf0.open_link")) == 1 and len(sent("scf1.open_link")) == 1')
+
+
+def _close_links(n):
+    @contract('C19', 'close_links.n%d' % n, [SWM + ':Swarm.close_links', SWM + ':Swarm.__exit__'],
+              clause='closing closes the link of every member exactly once (in the order of the URIs) and leaves the swarm not open',
+              bounded='swarm size %d (sizes 0..3 enumerated)' % n)
+    def k(c):
+        swarm, uris, scfs = new_swarm(c, n)
+        how = c.choice('how', ['close_links', '__exit__'])
+        if how == 'close_links':
+            c.call((swarm, 'close_links'))
+        else:
+            c.call((swarm, '__exit__'), None, None, None)
+        c.ensure('no-exception', 'raised is None')
+        c.ensure('every-link-closed-once-in-order', 'calls() == (%s)' % ''.join('"scf%d.close_link", ' % i for i in range(n)))
+        c.ensure('no-arguments', 'all(e[1:] == ((), {}) for e in trace)')
+        c.ensure('not-open', 'swarm._is_open is False')
+        if how == '__exit__':
+            c.ensure('exit-does-not-swallow-exceptions', 'not result')
+    return k
+
+
+for _n in (0, 1, 2, 3):
+    _close_links(_n)
+
+
+@contract('C19', 'context-manager', [SWM + ':Swarm.__enter__', SWM + ':Swarm.__exit__', SWM + ':Swarm.open_links', SWM + ':Swarm.close_links'],
+          clause='entering the swarm context opens every link (or closes all again and raises) and yields the swarm itself; leaving closes every link',
+          bounded='swarm size 2')
+def context_manager(c):
+    c.model_threads(SWM)
+    swarm, uris, scfs = new_swarm(c, 2, members=link_members(c, 2))
+    c.call((swarm, '__enter__'))
+    ensure_open_outcome_enter = c.get('raised') is None
+    if ensure_open_outcome_enter:
+        c.ensure('enter-yields-the-swarm', 'result is swarm')
+        c.ensure('enter-opens', 'swarm._is_open is True and len(sent("scf0.open_link")) == 1 and len(sent("scf1.open_link")) == 1 and len(calls("scf")) == 2')
+        c.ensure('only-when-nothing-failed', 'not %s' % any_fail(2, 'open'))
+        c.reset_trace()
+        c.call((swarm, '__exit__'), None, None, None)
+        c.ensure('exit-closes-every-link-once', 'raised is None and calls() == ("scf0.close_link", "scf1.close_link") and swarm._is_open is False')
+    else:
+        ensure_open_outcome(c, 2)
+
+
+# ------------------------------------------------------------------------- open_links over real SyncCrazyflie members
+
+def _open_sync(n):
+    @contract('C19', 'open_links.sync.n%d' % n,
+              [SWM + ':Swarm.open_links', SWM + ':Swarm.close_links', SWM + ':Swarm.parallel_safe',
+               SCF + ':SyncCrazyflie.__init__', SCF + ':SyncCrazyflie.open_link', SCF + ':SyncCrazyflie.close_link', SCF + ':SyncCrazyflie.is_link_open',
+               SCF + ':SyncCrazyflie._connected', SCF + ':SyncCrazyflie._connection_failed', SCF + ':SyncCrazyflie._disconnected'],
+              clause=P_OPEN + ' - with real SyncCrazyflie members: after a failed open_links no member link is open (every link that '
+                     'did open is closed on its Crazyflie exactly once), after a successful one every member link is open',
+              bounded='swarm size %d' % n)
+    def k(c):
+        c.model_threads(SWM)
+        fails = [c.bool('open_fail%d' % i) for i in range(n)]
+        members = []
+
+        def opener(i):
+            def body(I, args, kwargs):
+                # the Crazyflie answers the connection request through the callbacks SyncCrazyflie registered
+                if decide(I, fails[i]):
+                    c.invoke((members[i], '_connection_failed'), args[0], 'open:%d' % i)
+                else:
+                    c.invoke((members[i], '_connected'), args[0])
+            return body
+
+        def closer(i):
+            def body(I, args, kwargs):
+                c.invoke((members[i], '_disconnected'), URIS[i])
+            return body
+        for i in range(n):
+            cf = c.ext('cf%d' % i, returns={'open_link': opener(i), 'close_link': closer(i)})
+            members.append(c.new(SCF + ':SyncCrazyflie', URIS[i], cf))
+            c.let('scf%d' % i, members[i])
+        swarm, uris, scfs = new_swarm(c, n, members=members)
+        c.call((swarm, 'open_links'))
+        c.ensure('raises-iff-some-link-failed-to-open', 'iff(raised is not None, %s)' % any_fail(n, 'open'))
+        for i in range(n):
+            c.ensure('crazyflie-%d-asked-to-connect-exactly-once-to-its-uri' % i,
+                     '[e[1] for e in sent("cf%d.open_link")] == [(uris[%d],)]' % (i, i))
+        if c.get('raised') is None:
+            c.ensure('success-swarm-open-and-every-link-open', 'swarm._is_open is True and ' + ' and '.join('scf%d.is_link_open() is True' % i for i in range(n)))
+            c.ensure('success-nothing-closed', ' and '.join('len(sent("cf%d.close_link")) == 0' % i for i in range(n)))
+        else:
+            c.ensure('failure-is-raised', "raised == 'Exception'")
+            c.ensure('failure-chains-one-of-the-open-errors', cause_is_raised_here(n, 'open', 'Exception'))
+            c.ensure('failure-no-link-left-open', ' and '.join('scf%d.is_link_open() is False' % i for i in range(n)))
+            for i in range(n):
+                c.ensure('failure-link-%d-closed-once-iff-it-had-opened' % i, 'len(sent("cf%d.close_link")) == (0 if open_fail%d else 1)' % (i, i))
+            c.ensure('failure-swarm-is-not-open', 'swarm._is_open is False')
+    return k
+
+
+_open_sync(2)
